@@ -41,6 +41,16 @@ def base_streams(max_rows: int) -> list[dict]:
                     best = (seq, rows)
             if best:
                 out.append(_base(f"pyjelly/{scope}/{cls}", cls, best[0], best[1]))
+                if scope in ("prefix", "repeat") and len(best[1]) + 1 <= max_rows:
+                    # the same rows with the (identical) options row stated again in the middle:
+                    # some partitions put it at the start of a frame, others inside one
+                    rows = list(best[1])
+                    mid = len(rows) // 2
+                    if cls == "graph":  # (not between a graph start and its end: keep it simple)
+                        mid = next((i + 1 for i in range(mid, len(rows))
+                                    if rows[i]["kind"] == "graph_end"), len(rows))
+                    rows.insert(mid, rows[0])
+                    out.append(_base(f"pyjelly+options-again/{scope}/{cls}", cls, best[0], rows))
             # reference-encoder-written, with explicit ids and redundant entries
             for tag, feats in (("explicit", {"explicit-entry-id", "explicit-ref"}),
                                ("resend", {"resend", "no-elide"})):
